@@ -180,6 +180,47 @@ func checkC02(e *Env) {
 	// the concurrent flavour of this monitor (C12 is the full treatment)
 	concCalls := e.concurrentSmoke(drv, "C02", e.smokePool("C02", "chk"), e.pick(2, 12), e.pick(300, 1500), e.smokeValidAccepted())
 
+	// identity is not equality: a rejected sentence becomes garbage, is collected, and a VALID
+	// sentence of the same byte length is allocated at the very same address (the child retries
+	// until the allocator hands that address out again, and says whether it did)
+	reused, reusePairs := 0, 0
+	parallel(e.pick(4, 24), e.Workers, func(pi int) {
+		r := rng.New(e.Seed, "C02-addr-"+itoa(pi))
+		var ops []plan.Op
+		for k := 0; k < 60; k++ {
+			lang := r.Intn(ref.NLang)
+			w := e.Model.Words(r.Bytes(ref.EntSizes[r.Intn(5)]), lang)
+			bad := append([]string(nil), w...)
+			i, j := r.Intn(len(w)), r.Intn(len(w))
+			bad[i], bad[j] = bad[j], bad[i]
+			if _, st, _ := e.Model.Dec(bad, lang); st == ref.OK {
+				continue
+			}
+			ops = append(ops, plan.Op{I: len(ops), Fn: "chk", L: int64(lang), S: hxs(strings.Join(bad, " "))},
+				plan.Op{I: len(ops) + 1, Fn: []string{"chk", "val"}[k%2], L: int64(lang), S: hxs(strings.Join(w, " ")), Reuse: true})
+		}
+		res, died := e.RunProc(drv, ops, []string{"GOMAXPROCS=1", "VERIF_ENVTAG=GOMAXPROCS=1"}, 0)
+		if died != "" || len(res) != len(ops) {
+			return
+		}
+		for i := 1; i < len(res); i += 2 {
+			hit := false
+			for _, inf := range res[i].Info {
+				hit = hit || inf == "address-reused"
+			}
+			mu.Lock()
+			reusePairs++
+			if hit {
+				reused++
+			}
+			mu.Unlock()
+			if res[i].Panic == "" && !acceptedBy(&ops[i], &res[i]) {
+				e.Violate(&Violation{What: fmt.Sprintf("a valid %s mnemonic is rejected (%s) when it is validated right after a rejected sentence of the same byte length whose memory it took over (address reused: %v): %s", ref.Names[ops[i].L], errText(res[i].Err), hit, preview(ops[i].Str())),
+					Ops: ops[:i+1], ChildEnv: []string{"GOMAXPROCS=1"}, Expected: "accepted", Observed: res[i], Detail: historyNote})
+				return
+			}
+		}
+	})
 	// goroutines that each generate from their own window of ONE caller-owned buffer (windows of
 	// different goroutines are adjacent) and validate what they got, again and again
 	slabCalls := 0
@@ -237,12 +278,14 @@ func checkC02(e *Env) {
 		"samples":                          smp.List(),
 		"pairs_by_kind":                    kinds.Map(),
 		"leading_zero_byte_histogram_of_own_pairs": lz.Map(),
-		"corpus_classes":                            classes.Map(),
-		"language_position_word_accepted":           posWordCount,
-		"language_position_word_possible_first_23":  possible,
-		"own_output_differs_from_reference":         ownDiffersFromRef.Map(),
-		"generator_calls_that_returned_no_mnemonic": notReturned.Map(),
-		"calls_inside_histories":                    histCalls,
+		"corpus_classes":                                                                 classes.Map(),
+		"language_position_word_accepted":                                                posWordCount,
+		"language_position_word_possible_first_23":                                       possible,
+		"own_output_differs_from_reference":                                              ownDiffersFromRef.Map(),
+		"generator_calls_that_returned_no_mnemonic":                                      notReturned.Map(),
+		"calls_inside_histories":                                                         histCalls,
+		"valid_sentences_validated_right_after_a_rejected_one_of_the_same_length":        reusePairs,
+		"of_which_allocated_at_the_rejected_sentence's_address":                          reused,
 		"generate_and_check_pairs_from_adjacent_windows_of_one_buffer_under_concurrency": slabCalls,
 		"children":     stats.Children,
 		"child_deaths": stats.Deaths,
